@@ -4,19 +4,13 @@ package metadata
 
 import (
 	"context"
-	"encoding/json"
 	"fmt"
-	"sort"
-	"strings"
 	"sync"
-	"sync/atomic"
 	"testing"
 	"time"
 
 	"github.com/KafScale/platform/internal/testutil"
 	"github.com/KafScale/platform/internal/verifkit"
-	"github.com/KafScale/platform/pkg/protocol"
-	"github.com/twmb/franz-go/pkg/kmsg"
 	clientv3 "go.etcd.io/etcd/client/v3"
 	"go.etcd.io/etcd/client/v3/namespace"
 )
@@ -44,7 +38,7 @@ func TestVerifC21Det(t *testing.T) {
 		"a watch event is modelled as a boolean 'refresh pending' per broker: the watcher re-reads the current snapshot, not the event's value")
 	cli, _ := c21Etcd(t)
 	c21ForcedOwnRefresh(t, r, cli)
-	n := r.N(100, 2500)
+	n := r.N(100, 1200)
 	sem := make(chan struct{}, 8)
 	var wg sync.WaitGroup
 	for ci := 0; ci < n; ci++ {
@@ -193,374 +187,18 @@ func c21ForcedOwnRefresh(t *testing.T, r *verifkit.Run, cli *clientv3.Client) {
 }
 
 // ---------------------------------------------------------------------------
-// leg stress: real watchers, concurrent brokers
+// leg stress: real watchers, concurrent brokers (engine: VerifC21StressCase)
 // ---------------------------------------------------------------------------
-
-type c21Put struct {
-	Broker int            `json:"broker"` // -1 = harness sentinel
-	Rev    int64          `json:"rev"`
-	Prev   int64          `json:"overwrote_rev"`
-	Base   int64          `json:"copy_based_on_rev"`
-	Topics map[string]int `json:"topics"`
-	Tick   int64          `json:"tick"` // logical time at which the Put was answered
-}
-
-type c21Recorder struct {
-	mu    sync.Mutex
-	puts  []c21Put
-	clock atomic.Int64
-	gets  map[int][]int64 // broker -> logical times at which a snapshot Get was answered
-}
-
-type c21TagKV struct {
-	clientv3.KV
-	broker int
-	rec    *c21Recorder
-	base   atomic.Int64
-}
-
-func (k *c21TagKV) Get(ctx context.Context, key string, opts ...clientv3.OpOption) (*clientv3.GetResponse, error) {
-	resp, err := k.KV.Get(ctx, key, opts...)
-	if err == nil && key == snapshotKey() {
-		if len(resp.Kvs) > 0 {
-			k.base.Store(resp.Kvs[0].ModRevision)
-		}
-		k.rec.mu.Lock()
-		k.rec.gets[k.broker] = append(k.rec.gets[k.broker], k.rec.clock.Add(1))
-		k.rec.mu.Unlock()
-	}
-	return resp, err
-}
-
-func (k *c21TagKV) Put(ctx context.Context, key, val string, opts ...clientv3.OpOption) (*clientv3.PutResponse, error) {
-	if key != snapshotKey() {
-		return k.KV.Put(ctx, key, val, opts...)
-	}
-	base := k.base.Load()
-	resp, err := k.KV.Put(ctx, key, val, append(append([]clientv3.OpOption{}, opts...), clientv3.WithPrevKV())...)
-	if err == nil {
-		var snap ClusterMetadata
-		_ = json.Unmarshal([]byte(val), &snap)
-		p := c21Put{Broker: k.broker, Rev: resp.Header.Revision, Base: base, Topics: verifC21Topics(&snap)}
-		if resp.PrevKv != nil {
-			p.Prev = resp.PrevKv.ModRevision
-		}
-		k.base.Store(resp.Header.Revision)
-		k.rec.mu.Lock()
-		p.Tick = k.rec.clock.Add(1)
-		k.rec.puts = append(k.rec.puts, p)
-		k.rec.mu.Unlock()
-	}
-	return resp, err
-}
-
-type c21Ack struct {
-	Broker int    `json:"broker"`
-	Op     string `json:"op"`
-	Topic  string `json:"topic"`
-	N      int32  `json:"n,omitempty"`
-	Err    string `json:"err,omitempty"`
-	Call   int64  `json:"call"`
-	Ret    int64  `json:"ret"`
-}
 
 func TestVerifC21Stress(t *testing.T) {
 	r := verifkit.Start(t, "C21", "stress")
-	defer r.Finish("[stress, real watchers] 3 EtcdStore values built exactly like NewEtcdStore (own etcd client, initial refresh, startWatchers) run 6-9 admin ops each concurrently (create own topics, grow own and foreign topics, create+delete scratch topics); afterwards a sentinel topic is added to the snapshot and the run waits until every broker's Metadata() shows it (sentinel event = all earlier watch events handled); every snapshot Put is recorded at the KV interface with the revision it overwrote and the revision the writer's copy was based on, so a loss is attributed to the Put that caused it; "+c21Rule+" (topics that were ever the target of a delete attempt carry no obligation); non-trivial = a history in which some broker wrote the snapshot from a copy older than the one it overwrote",
+	defer r.Finish("[stress, real watchers] 3 EtcdStore values built exactly like NewEtcdStore (own etcd client, initial refresh, startWatchers) run 6-9 admin ops each concurrently (create own topics, grow own and foreign topics, create+delete scratch topics); afterwards a sentinel topic is added to the snapshot and the run waits until every broker's Metadata() shows it (sentinel event = all earlier watch events handled); the full revision-ordered history of the snapshot key is taken from a harness watch, and every broker Put is tagged at the KV interface with the revision its copy was based on, so a loss is attributed to the write that caused it; "+c21Rule+" (topics that were ever the target of a delete attempt carry no obligation); non-trivial = a history in which some broker wrote the snapshot from a copy older than the one it overwrote",
 		"obligation = the largest acknowledged count: sound for any linearizable implementation, since a later smaller grow would be rejected",
 		"sentinel not visible within the watchdog => inconclusive")
 	cli, endpoints := c21Etcd(t)
-	n := r.N(8, 150)
+	n := r.N(8, 60)
 	for ci := 0; ci < n; ci++ {
-		c21StressCase(t, r, cli, endpoints, ci)
+		VerifC21StressCase(VerifC21StressEnv{R: r, Cli: cli, Endpoints: endpoints, Prefix: "stress"}, ci, r.Rand(ci))
 	}
 	r.Floor("stress_cases_judged", 5)
-}
-
-func c21StressCase(t *testing.T, r *verifkit.Run, cli *clientv3.Client, endpoints []string, ci int) {
-	rng := r.Rand(ci)
-	ctx, cancel := context.WithCancel(context.Background())
-	defer cancel()
-	wctx, wcancel := context.WithTimeout(ctx, 20*time.Second)
-	_, err := cli.Delete(wctx, "/kafscale/", clientv3.WithPrefix())
-	wcancel()
-	if err != nil {
-		r.Inconclusive(fmt.Sprintf("stress case %d: wipe: %v", ci, err))
-		return
-	}
-	rec := &c21Recorder{gets: map[int][]int64{}}
-	const nb = 3
-	stores := make([]*EtcdStore, nb)
-	for i := 0; i < nb; i++ {
-		bcli, err := clientv3.New(clientv3.Config{Endpoints: endpoints, DialTimeout: 5 * time.Second})
-		if err != nil {
-			t.Fatalf("broker client: %v", err)
-		}
-		bcli.KV = &c21TagKV{KV: bcli.KV, broker: i, rec: rec}
-		// the body of NewEtcdStore, with the tagged client
-		store := &EtcdStore{client: bcli, metadata: NewInMemoryStore(verifC21Initial(int32(i))), available: 1}
-		_ = store.refreshSnapshot(ctx)
-		store.startWatchers()
-		stores[i] = store
-		defer store.Close()
-	}
-	// op lists are fixed by the PRNG before anything runs
-	type planned struct {
-		op    string
-		topic string
-		n     int32
-	}
-	plans := make([][]planned, nb)
-	for i := 0; i < nb; i++ {
-		k := 6 + rng.Intn(4)
-		own := 0
-		for j := 0; j < k; j++ {
-			switch x := rng.Intn(10); {
-			case x < 4 || own == 0:
-				plans[i] = append(plans[i], planned{"create", fmt.Sprintf("b%d-t%d", i, own), int32(1 + rng.Intn(3))})
-				own++
-			case x < 6:
-				plans[i] = append(plans[i], planned{"grow", fmt.Sprintf("b%d-t%d", i, rng.Intn(own)), int32(2 + rng.Intn(6))})
-			case x < 8:
-				o := rng.Intn(nb)
-				plans[i] = append(plans[i], planned{"grow", fmt.Sprintf("b%d-t%d", o, rng.Intn(2)), int32(2 + rng.Intn(6))})
-			case x < 9:
-				plans[i] = append(plans[i], planned{"create", fmt.Sprintf("tmp-%d-%d", i, j), 1})
-				plans[i] = append(plans[i], planned{"delete", fmt.Sprintf("tmp-%d-%d", i, j), 0})
-			default:
-				plans[i] = append(plans[i], planned{"delete", fmt.Sprintf("tmp-%d-%d", rng.Intn(nb), rng.Intn(k)), 0})
-			}
-		}
-	}
-	var mu sync.Mutex
-	var acks []c21Ack
-	var wg sync.WaitGroup
-	panics := atomic.Int64{}
-	for i := 0; i < nb; i++ {
-		wg.Add(1)
-		go func(i int) {
-			defer wg.Done()
-			for _, p := range plans[i] {
-				a := c21Ack{Broker: i, Op: p.op, Topic: p.topic, N: p.n, Call: rec.clock.Add(1)}
-				func() {
-					defer func() {
-						if pv := recover(); pv != nil {
-							a.Err = fmt.Sprintf("panic: %v", pv)
-							panics.Add(1)
-						}
-					}()
-					var err error
-					switch p.op {
-					case "create":
-						_, err = stores[i].CreateTopic(ctx, TopicSpec{Name: p.topic, NumPartitions: p.n, ReplicationFactor: 1})
-					case "grow":
-						err = stores[i].CreatePartitions(ctx, p.topic, p.n)
-					case "delete":
-						err = stores[i].DeleteTopic(ctx, p.topic)
-					}
-					if err != nil {
-						a.Err = err.Error()
-					}
-				}()
-				a.Ret = rec.clock.Add(1)
-				mu.Lock()
-				acks = append(acks, a)
-				mu.Unlock()
-			}
-		}(i)
-	}
-	wg.Wait()
-	r.Count("stress_panics_in_admin_ops", panics.Load())
-
-	// sentinel: changes have stopped; add a marker topic to whatever the snapshot holds now
-	sentinel := fmt.Sprintf("zz-sentinel-%d", ci)
-	sctx, scancel := context.WithTimeout(ctx, 20*time.Second)
-	resp, err := cli.Get(sctx, snapshotKey())
-	if err != nil {
-		scancel()
-		r.Inconclusive(fmt.Sprintf("stress case %d: read before sentinel: %v", ci, err))
-		return
-	}
-	var snap ClusterMetadata
-	if len(resp.Kvs) > 0 {
-		if err := json.Unmarshal(resp.Kvs[0].Value, &snap); err != nil {
-			scancel()
-			r.Violation("snapshot_undecodable", "etcd snapshot is not decodable after the workload: "+err.Error(), map[string]any{"case": ci})
-			return
-		}
-	} else {
-		snap = verifC21Initial(0)
-	}
-	snap.Topics = append(snap.Topics, protocol.MetadataTopic{Topic: kmsg.StringPtr(sentinel), TopicID: TopicIDForName(sentinel),
-		Partitions: []protocol.MetadataPartition{{Partition: 0, Leader: 0, Replicas: []int32{0}, ISR: []int32{0}}}})
-	payload, _ := json.Marshal(snap)
-	_, err = cli.Put(sctx, snapshotKey(), string(payload))
-	scancel()
-	if err != nil {
-		r.Inconclusive(fmt.Sprintf("stress case %d: sentinel put: %v", ci, err))
-		return
-	}
-	shown := false
-	for dl := time.Now().Add(30 * time.Second); time.Now().Before(dl); time.Sleep(2 * time.Millisecond) {
-		all := true
-		for _, s := range stores {
-			m, err := s.Metadata(ctx, nil)
-			if err != nil {
-				all = false
-				break
-			}
-			if _, ok := verifC21Topics(m)[sentinel]; !ok {
-				all = false
-				break
-			}
-		}
-		if all {
-			shown = true
-			break
-		}
-	}
-	if !shown {
-		r.Inconclusive(fmt.Sprintf("stress case %d: sentinel topic not shown by every broker within the watchdog", ci))
-		return
-	}
-	final, _, err := VerifC21ReadSnapshot(ctx, cli.KV)
-	if err != nil {
-		r.Inconclusive(fmt.Sprintf("stress case %d: final read: %v", ci, err))
-		return
-	}
-	r.Count("stress_cases_judged", 1)
-
-	// obligations
-	deleteTried := map[string]bool{}
-	min := map[string]int{}
-	by := map[string]c21Ack{}
-	for _, a := range acks {
-		if a.Op == "delete" {
-			deleteTried[a.Topic] = true
-		}
-	}
-	nacked := 0
-	for _, a := range acks {
-		r.Count("stress_ops_"+a.Op, 1)
-		if a.Err != "" {
-			continue
-		}
-		nacked++
-		r.Count("stress_acked_"+a.Op, 1)
-		if a.Op == "delete" || deleteTried[a.Topic] {
-			continue
-		}
-		if int(a.N) > min[a.Topic] {
-			min[a.Topic] = int(a.N)
-			by[a.Topic] = a
-		}
-	}
-	rec.mu.Lock()
-	puts := append([]c21Put(nil), rec.puts...)
-	gets := map[int][]int64{}
-	for k, v := range rec.gets {
-		gets[k] = append([]int64(nil), v...)
-	}
-	rec.mu.Unlock()
-	sort.Slice(puts, func(a, b int) bool { return puts[a].Rev < puts[b].Rev })
-	stalePuts := 0
-	for _, p := range puts {
-		if p.Prev != 0 && p.Base < p.Prev {
-			stalePuts++
-		}
-	}
-	r.Count("stress_snapshot_puts", int64(len(puts)))
-	r.Count("stress_puts_from_stale_copy", int64(stalePuts))
-
-	names := make([]string, 0, len(min))
-	for name := range min {
-		names = append(names, name)
-	}
-	sort.Strings(names)
-	sort.Slice(acks, func(a, b int) bool { return acks[a].Call < acks[b].Call })
-	replay := map[string]any{"case": ci, "ops": acks, "snapshot_puts": puts, "etcd_final": final}
-	conserved := true
-	for _, name := range names {
-		need := min[name]
-		got, present := final[name]
-		if present && got >= need {
-			for i, s := range stores {
-				m, err := s.Metadata(ctx, nil)
-				if err != nil {
-					continue
-				}
-				if g, ok := verifC21Topics(m)[name]; !ok || g < need {
-					conserved = false
-					r.Violation("broker_view_misses_acked_change_after_refresh",
-						fmt.Sprintf("topic %q acked with %d partitions is in etcd (%d) but broker %d shows %d after the sentinel", name, need, got, i, g), replay)
-				}
-			}
-			continue
-		}
-		conserved = false
-		effect := "partitions_shrunk"
-		if !present {
-			effect = "topic_lost"
-		}
-		// the Put after which the obligation was, for the last time, no longer met
-		culprit := -1
-		everOK := false
-		for k := len(puts) - 1; k >= 0; k-- {
-			if puts[k].Topics[name] >= need {
-				everOK = true
-				break
-			}
-			culprit = k
-		}
-		a := by[name]
-		class := "unattributed:" + effect
-		why := ""
-		switch {
-		case !everOK:
-			// the acknowledged change never reached etcd. Look at the Put the call itself made (single caller per
-			// broker: the only snapshot Put of that broker answered inside the call) and at refreshes of the same
-			// broker answered between the start of the call and that Put.
-			ownPut := int64(-1)
-			for _, p := range puts {
-				if p.Broker == a.Broker && p.Tick > a.Call && p.Tick < a.Ret {
-					ownPut = p.Tick
-				}
-			}
-			inside := false
-			for _, g := range gets[a.Broker] {
-				if g > a.Call && g < ownPut {
-					inside = true
-				}
-			}
-			switch {
-			case ownPut < 0:
-				class = "acked_change_never_persisted:" + effect
-				why = fmt.Sprintf("the acknowledged %s by broker %d made no snapshot Put", a.Op, a.Broker)
-			case a.Op == "grow" && inside:
-				class = "grow_ack_lost_to_concurrent_refresh"
-				why = fmt.Sprintf("a snapshot refresh of broker %d was answered between the start of its CreatePartitions and the Put that call made; that Put does not hold the growth", a.Broker)
-			default:
-				class = "acked_change_not_in_snapshot:" + effect
-				why = fmt.Sprintf("the snapshot Put made by the acknowledged %s on broker %d does not hold the change, and no refresh of that broker ran inside the call", a.Op, a.Broker)
-			}
-		case culprit >= 0 && puts[culprit].Broker >= 0 && puts[culprit].Prev != 0 && puts[culprit].Base < puts[culprit].Prev:
-			class = "broker_put_from_stale_copy:" + effect
-			why = fmt.Sprintf("broker %d wrote the whole snapshot at rev %d from a copy based on rev %d, overwriting rev %d", puts[culprit].Broker, puts[culprit].Rev, puts[culprit].Base, puts[culprit].Prev)
-		case culprit >= 0 && puts[culprit].Broker >= 0:
-			class = "broker_put_from_current_copy:" + effect
-			why = fmt.Sprintf("broker %d wrote the snapshot at rev %d from a copy based on the revision it overwrote (%d)", puts[culprit].Broker, puts[culprit].Rev, puts[culprit].Prev)
-		}
-		r.Violation(class, fmt.Sprintf("topic %q acked with %d partitions (%s by broker %d), no delete attempted; after the sentinel etcd has %d (present=%v): %s", name, need, a.Op, a.Broker, got, present, why), replay)
-	}
-	if conserved {
-		r.Count("stress_cases_conserved", 1)
-	}
-	var sig []string
-	for _, p := range puts {
-		sig = append(sig, fmt.Sprintf("%d:%v", p.Broker, p.Base < p.Prev))
-	}
-	r.Case(verifkit.Hash("stress", ci, strings.Join(sig, ",")), stalePuts > 0 && nacked > 0 && len(min) > 0)
-	if ci == 0 {
-		r.Sample(map[string]any{"case": ci, "ops": acks, "snapshot_puts": len(puts), "stale_puts": stalePuts, "conserved": conserved})
-	}
 }
